@@ -81,7 +81,7 @@ func TestPropPolicy(t *testing.T) {
 			ctx := func() string {
 				return fmt.Sprintf("%s of %s, contract rate=%d burst=%d, history %v, arrivals %v", dirName(f.dir), f.sub, f.rate, f.burst, hist, sampleEvents(f.ev, 40))
 			}
-			ab, _ := verdictCheck(rt, f.ev, f.rate, f.burst, sigEnforcedOver+"/"+dirName(f.dir), sigEnforcedRate0+"/"+dirName(f.dir), ctx)
+			ab, _ := verdictCheck2(rt, f.ev, f.rate, f.burst, f.bkt, sigEnforcedOver+"/"+dirName(f.dir), sigEnforcedRate0+"/"+dirName(f.dir), ctx)
 			if nonTrivial(f.ev) {
 				nt = true
 			}
@@ -118,11 +118,11 @@ func TestPropPolicy(t *testing.T) {
 				if ab || !found {
 					return true
 				}
-				rate, burst, ab := contract(rt, s, dir, b)
+				rate, burst, bkt, ab := contract(rt, s, dir, b)
 				if ab {
 					return true
 				}
-				flows = append(flows, &flow{sub: s, dir: dir, rate: rate, burst: burst})
+				flows = append(flows, &flow{sub: s, dir: dir, rate: rate, burst: burst, bkt: bkt})
 			}
 			removed[s] = false
 			return false
@@ -231,8 +231,9 @@ func TestPropPolicy(t *testing.T) {
 		} else {
 			cls = append(cls, "manager-key-found")
 		}
+		cls = append(cls, "layer:policy")
 		if nt {
-			cls = append(cls, "nt:drop-then-admit")
+			cls = append(cls, "nt:drop-then-admit", "nt:policy")
 		}
 		vstat.Case(nt, vstat.Hash("policy", fmt.Sprint(hist), clock),
 			func() any { return map[string]any{"layer": "policy", "history": hist} }, dedup(cls)...)
